@@ -1040,8 +1040,14 @@ class Builder:
                     self.frame = saved
         if a.kwarg is not None:
             extra = {k: v for k, v in kw.items() if k not in params and k != '**'}
-            locals_[a.kwarg.arg] = self.mk('dict', list(extra.keys()), list(extra.values()), at=at) \
-                if '**' not in kw else self.mk('kwargs', args=list(extra.values()), at=at)
+            if '**' not in kw:
+                locals_[a.kwarg.arg] = self.mk('dict', list(extra.keys()), list(extra.values()), at=at)
+            elif not extra and kw['**'].kind == 'kwargs':
+                locals_[a.kwarg.arg] = kw['**']
+            else:
+                kn = self.mk('kwargs', args=[kw['**']] + list(extra.values()), at=at)
+                kn.owner = getattr(kw['**'], 'owner', None)
+                locals_[a.kwarg.arg] = kn
         self_obj = None
         if clo.self_node is not None:
             self_obj = clo.self_node
@@ -1176,6 +1182,14 @@ class Builder:
                     self.assign(e, self.subscript(v, self.const(i), t))
         elif isinstance(t, ast.Attribute):
             base = self.eval(t.value)
+            if rebinding and base.kind == 'obj' and t.attr not in self.heap.get(base.val.oid, {}):
+                # in-place update (x.update(..), x.append(..), x[k] = ..) of an object that the
+                # instance only INHERITS from its class: the class-level object itself changes,
+                # for every instance
+                owner, val = base.val.cls.find_attr(t.attr)
+                if owner is not None:
+                    self.gvars[('classattr', owner.fullname, t.attr)] = v
+                    return
             self.set_attr(base, t.attr, v, t)
         elif isinstance(t, ast.Subscript):
             base = self.eval(t.value)
@@ -1498,9 +1512,14 @@ class Builder:
         explicit constructor arguments (Nodes)."""
         self.frame = Frame(None, cls.module, {}, None)
         op = self.begin_op('construct %s%s' % (cls.name, label))
-        kw = {'**': self.mk('kwargs')}
+        kwn = self.mk('kwargs')
+        kw = {'**': kwn}
         kw.update(ctor_args or {})
+        Obj._count += 1
+        kwn.owner = Obj._count          # the keyword bundle belongs to the instance about to be created
+        Obj._count -= 1
         objn = self.instantiate(cls, symbolic=True, kw=kw)
+        kwn.owner = objn.val.oid
         self.ops[op]['instance'] = objn.val.oid
         return objn, op
 
